@@ -40,6 +40,19 @@ theorem erase_run (fuel : Nat) (m : Mach) :
     (run np fuel m).map (fun r => eraseLog r.2) = (run np fuel (eraseLog m)).map (fun r => eraseLog r.2) :=
   Erase.run_sim np fuel m (eraseLog m) rfl
 
+/-- switching recording on or off (`set_recording_enabled`) changes the log and nothing else — not the instruction
+    meter, not a limit, not a stack: up to the log it is the same machine, so (by `step_log_independent`, `erase_run`)
+    everything that follows is the same whichever way the switch was set and whenever it was set -/
+theorem recording_switch_changes_only_the_log (m : Mach) (on : Bool) :
+    eraseLog (m.setRecording on) = eraseLog m ∧ (m.setRecording on).meter = m.meter ∧
+    (m.setRecording on).insnLimit = m.insnLimit := ⟨rfl, rfl, rfl⟩
+
+/-- … and a run after the switch ends like the run without it -/
+theorem run_after_recording_switch (fuel : Nat) (m : Mach) (on : Bool) :
+    (run np fuel (m.setRecording on)).map (·.1) = (run np fuel m).map (·.1) ∧
+    (run np fuel (m.setRecording on)).map (fun r => eraseLog r.2) = (run np fuel m).map (fun r => eraseLog r.2) :=
+  Erase.run_sim np fuel (m.setRecording on) m rfl
+
 /-- any two machines that differ only in the log behave alike (two-machine form, e.g. logs of
     different length) -/
 theorem step_log_independent (a b : Mach) (h : eraseLog a = eraseLog b) :
